@@ -142,6 +142,11 @@ func (c *Conn) Close() error {
 			c.link.inq <- nil // the other end reads EOF
 			c.link.pushed++
 		}
+		if c.reset {
+			// closing a connection the peer has reset reports an error (tls.Conn.Close cannot send its
+			// close-notify); it is closed all the same
+			return ErrReset
+		}
 	}
 	return nil
 }
